@@ -341,7 +341,22 @@ def materialise(spec) -> Materialised:
     classes: dict[str, type] = {}
     mh_objects = []
 
+    # spec["define_order"] = k: the classes are CREATED in another order (as when the modules that
+    # define them are imported in another order); what is handed to extract_grammar stays the same
+    k_order = spec.get("define_order", 0)
+
+    def shuffled(items, key):
+        if not k_order:
+            return list(items)
+        import hashlib
+
+        return sorted(items, key=lambda x: hashlib.sha256(f"{k_order}:{key(x)}".encode()).hexdigest())
+
+    level = {}
     for a in spec["abstracts"]:
+        level[a["name"]] = 0 if a["parent"] is None else level.get(a["parent"], 0) + 1
+    abstract_order = sorted(shuffled(spec["abstracts"], lambda a: a["name"]), key=lambda a: level[a["name"]])
+    for a in abstract_order:
         if a["parent"] is None:
             if a["style"] == "ABC":
                 cls = type(a["name"], (ABC,), {"__module__": modname})
@@ -381,7 +396,7 @@ def materialise(spec) -> Materialised:
             return f"Annotated[{ann_str(t[1], cname, fname)}, {nm}]"
         raise ValueError(t)
 
-    for c in spec["concretes"]:
+    for c in shuffled(spec["concretes"], lambda c: c["name"]):
         fields = [(fn, ann_str(ft, c["name"], fn)) for fn, ft in c["fields"]]
         bases = (classes[c["parent"]],) if c["parent"] else ()
         if c.get("style") == "plain":
